@@ -42,7 +42,9 @@ import (
 // harness' own reading ([qos, pods, containers], request * percent / 100, qos = sums, every updater mergeable);
 // observations: the writes of that resource in order and its final contents.
 // Oracle (both resources): after every write each child's protection <= its parent's.  The two edges
-// kubepods -> burstable / besteffort are reported as a tag only (known: same level, see props/C12.json).
+// kubepods -> burstable / besteffort (kubepods sits FIRST in the level of its children) have their own fingerprint
+// C12:cgreconcile-invalid-intermediate:kubepods-before-qos-child (fixed by 4d8d1bf: the bottom-up sweep walks a level
+// backwards).
 
 var c12cgSentinel = time.Unix(1000000, 0)
 
@@ -321,7 +323,6 @@ func TestVerifC12CgReconcile(t *testing.T) {
 	defer ctrl.Finish()
 	node := &corev1.Node{ObjectMeta: metav1.ObjectMeta{Name: "n"}, Status: corev1.NodeStatus{Allocatable: corev1.ResourceList{
 		corev1.ResourceCPU: resource.MustParse("16"), corev1.ResourceMemory: resource.MustParse("64Gi")}}}
-	firstFinding := ""
 
 	n := h.N(800, 6000)
 	for idx := 0; idx < n; idx++ {
@@ -660,10 +661,10 @@ func TestVerifC12CgReconcile(t *testing.T) {
 						h.Fail("C12:cgreconcile-invalid-intermediate", "calculateAndUpdateResources: after some %s write a child's protection exceeds its parent's (v2 %v, parents %v, start %v, target %v, writes %v, contents then %v)", name, v2, tr.parent, begin[kk], tgt[kk], tr.writes[kk], tr.badAt[kk])
 					}
 					if tr.badQos[kk] {
-						h.Tag("cgr:known:kubepods-lowered-before-its-qos-child")
-						if firstFinding == "" {
-							firstFinding = fmt.Sprintf("case %d step %d %s: parents %v start %v target %v writes %v", idx, s, name, tr.parent, begin[kk], tgt[kk], tr.writes[kk])
-						}
+						h.Fail("C12:cgreconcile-invalid-intermediate:kubepods-before-qos-child", "calculateAndUpdateResources: after some %s write burstable / besteffort holds more than kubepods (v2 %v, parents %v, start %v, target %v, writes %v)", name, v2, tr.parent, begin[kk], tgt[kk], tr.writes[kk])
+					}
+					if changed > 0 && begin[kk][0] > tgt[kk][0] && (begin[kk][1] > tgt[kk][1] || begin[kk][2] > tgt[kk][2]) {
+						h.Tag("cgr:" + name + ":kubepods-and-qos-child-shrink")
 					}
 				}
 				for i := range tgt[kk] {
@@ -690,9 +691,6 @@ func TestVerifC12CgReconcile(t *testing.T) {
 		close(stop)
 		h.End()
 		_ = os.RemoveAll(root)
-	}
-	if firstFinding != "" {
-		h.Extra("kubepods_lowered_before_qos_child_example", firstFinding)
 	}
 	h.Close("kubepods / burstable / besteffort + 1-4 pods (Guaranteed LSR|LS, Burstable LS, BestEffort BE; running / pending / terminated; 1-2 containers, memory requests " +
 		"100Mi..4000Mi or none; pod annotation: policy none, percent override, unparsable) in a temp cgroup root (cgroup v1/v2, systemd/cgroupfs); start = fresh (0) or " +
